@@ -219,7 +219,7 @@ Qed.
 
 (* ---- the whole text -------------------------------------------------------- *)
 Definition block_lines (st : lstate) (loc : N) : list sumline :=
-  SLocale loc :: map SText (rows (columns st loc))
+  (if N.eqb loc 0 then [] else [SLocale loc]) ++ map SText (rows (columns st loc))
   ++ [SText (dec (rate_of (last (columns st loc) [])) ++ rate_suffix)].
 
 Lemma columns_nonempty : forall st loc, l_obs st <> [] -> columns st loc <> [].
@@ -253,9 +253,14 @@ Proof.
 Qed.
 
 Lemma serialize_ok : forall st, l_obs st <> [] ->
+  unsortable (map fst (o_summary (l_own st))) = false ->
   serialize_summaries st =
     Ok (flat_map (block_lines st) (sort_locs (map fst (o_summary (l_own st))))).
-Proof. intros st H. unfold serialize_summaries. apply blocks_ok. exact H. Qed.
+Proof. intros st H U. unfold serialize_summaries. cbv zeta. rewrite U. apply blocks_ok. exact H. Qed.
+
+Lemma serialize_unsortable : forall st,
+  unsortable (map fst (o_summary (l_own st))) = true -> serialize_summaries st = Raise TypeError.
+Proof. intros st U. unfold serialize_summaries. cbv zeta. rewrite U. reflexivity. Qed.
 
 (* no project observer: nothing to print when nothing was counted, IndexError
    otherwise (`summaries[-1]` of an empty list) *)
@@ -266,10 +271,11 @@ Proof.
 Qed.
 
 Lemma serialize_no_observers : forall st, l_obs st = [] ->
+  unsortable (map fst (o_summary (l_own st))) = false ->
   serialize_summaries st =
     match o_summary (l_own st) with [] => Ok [] | _ :: _ => Raise IndexError end.
 Proof.
-  intros st H. unfold serialize_summaries.
+  intros st H U. unfold serialize_summaries. cbv zeta. rewrite U.
   destruct (o_summary (l_own st)) as [|lc s] eqn:E; [reflexivity|].
   destruct (sort_locs (map fst (lc :: s))) as [|l r] eqn:S.
   - apply sort_locs_nil in S. discriminate S.
